@@ -18,6 +18,7 @@ import GoflowModel.Driver.Util
   ctxview <redact01> <hex name> <id> <urns> <sendable schemes>  →  default=… urn=… urns=… by=…   (Contact.Context)
   repeatguard <len> <count> → ok <n> | err ; roundguard <places> → ok | err ; expguard <e> → ok | err ; callrun <e|l…> → ok <calls> <depth>
   limitname <max> <hex name>                →  ok <hex>                                    (Migrate13_6)
+  legacyorder <entry id> <id:y,…>           →  ok <ids in migrated order>                  (legacy.migrateNodes)
   objget <hex names,…> <hex key>            →  ok <index of the property found> | none   (XObject.Get)
   objprops <hex names,…>                    →  ok <hex names sorted>                      (XObject.Properties)
 -/
@@ -139,6 +140,13 @@ def handle : List String → Option String
     some s!"ok {r.2} {r.1.depth}"
   | ["limitname", mx, h] => do
     some ("ok " ++ encL (Migrate.limitName (← mx.toNat?) (← decL h)))
+  | ["legacyorder", entry, nodes] => do
+    -- nodes: id:y,id:y,… in the order action sets then rule sets are listed
+    let ns ← (nodes.splitOn ",").mapM fun t =>
+      match t.splitOn ":" with
+      | [i, y] => do some ((← i.toNat?, ← y.toInt?) : Migrate.LNode)
+      | _ => none
+    some ("ok " ++ ",".intercalate ((Migrate.legacyOrder (← entry.toNat?) ns).map fun n => toString n.1))
   | ["cacheseq", keys] => do
     -- each request is a thread that runs alone to completion (lock, look/load, store+unlock); key 9 does not exist
     let ks ← (keys.splitOn ",").mapM (·.toNat?)
